@@ -7,7 +7,9 @@ package interp
 //     everything logged before it: ordered journalling);
 //   - a crash may happen before any file-system call (a decision point of the path); after a crash
 //     the disk holds the durable state plus an arbitrary PREFIX of the unsynced log (decision
-//     point): in particular a write may be cut after any byte and a rename is atomic;
+//     point), except that unsynced file DATA may lag behind metadata: of the bytes written to a
+//     file and not synced only a prefix survives, independently per file (so a rename can be on
+//     disk while the renamed file's content is not); a rename itself is atomic;
 //   - os.WriteFile = open(O_CREATE|O_TRUNC) ; write ; close, without sync.
 
 import (
@@ -140,7 +142,36 @@ func initFSModels() {
 			if len(m.log) > 0 {
 				k = i.freeChoice(len(m.log)+1, 'c')
 			}
-			st = applyOps(m.durable, m.log[:k])
+			// metadata operations (create, rename, remove) reach the disk in order, but the data
+			// of a file that was never synced may lag behind them (delayed allocation): of the
+			// unsynced bytes written to a file, only a prefix survives, independently per file
+			ops := append([]fsOp(nil), m.log[:k]...)
+			writes := map[string]int{}
+			var order []string
+			for _, op := range ops {
+				if op.kind == 'w' {
+					if writes[op.path] == 0 {
+						order = append(order, op.path)
+					}
+					writes[op.path]++
+				}
+			}
+			for _, path := range order {
+				keep := i.freeChoice(writes[path]+1, 'c')
+				seen := 0
+				var kept []fsOp
+				for _, op := range ops {
+					if op.kind == 'w' && op.path == path {
+						seen++
+						if seen > keep {
+							continue
+						}
+					}
+					kept = append(kept, op)
+				}
+				ops = kept
+			}
+			st = applyOps(m.durable, ops)
 		} else {
 			st = m.view()
 		}
